@@ -17,4 +17,119 @@ theorem close_refines [DecidableEq α] (cfg : Cfg) {b : LB α} {q : Q α} (hR : 
   simp only [specStep]
   refine ⟨rfl, rfl, rfl, fun h => (by cases h), fun h => (by cases h), hR.flags⟩
 
+/-! ### helpers on the chain invariant of a writable buffer -/
+
+theorem absL_eq_nil {ns : List (Node α)} (h : ∀ nd ∈ ns, nd.abs = []) : absL ns = [] := by
+  simp only [absL, List.flatMap_eq_nil_iff]; exact h
+
+theorem absL_append (as bs : List (Node α)) : absL (as ++ bs) = absL as ++ absL bs := by
+  simp [absL, List.flatMap_append]
+
+/-- nodes behind the write node are abstractly empty -/
+theorem Shape.absL_behind_w {nodes : List (Node α)} {r f w app} (h : Shape nodes r f w false app) :
+    absL (nodes.drop (w + 1)) = [] := by
+  apply absL_eq_nil
+  intro nd hnd
+  obtain ⟨i, hi⟩ := List.getElem?_of_mem hnd
+  rw [List.getElem?_drop] at hi
+  obtain ⟨h1, h2⟩ := ((h.node _ nd hi).2.2.2.1 rfl).2.2 (by omega)
+  exact Node.abs_nil nd (by simp [Node.len, h1]) h2
+
+/-- cutting the chain behind the write node does not change what it denotes -/
+theorem Shape.absL_take_w {nodes : List (Node α)} {r f w app} (h : Shape nodes r f w false app) :
+    absL ((nodes.take (w + 1)).drop r) = absL (nodes.drop r) := by
+  obtain ⟨h1, h2⟩ := h.wr rfl
+  have hr := h.r_le_f
+  conv => rhs; rw [← List.take_append_drop (w + 1) nodes]
+  rw [List.drop_append_of_le_length (by simp; omega), absL_append, h.absL_behind_w, List.append_nil]
+
+/-- if the abstract content has no pending entry, no node of the suffix has pending bytes -/
+theorem pend_nil_of_no_pending {ns : List (Node α)} (h : (absL ns).filter (! ·.2) = [])
+    (hm : ∀ nd ∈ ns, nd.buf.length + nd.pend.length = nd.malloc) : ∀ nd ∈ ns, nd.pend = [] := by
+  intro nd hnd
+  cases hp : nd.pend with
+  | nil => rfl
+  | cons p ps =>
+    exfalso
+    have hm' := hm nd hnd
+    rw [hp] at hm'
+    simp only [List.length_cons] at hm'
+    have e : nd.malloc - nd.buf.length = ps.length + 1 := by omega
+    have hmem : (p, false) ∈ absL ns := by
+      simp only [absL, List.mem_flatMap]
+      exact ⟨nd, hnd, by simp [Node.abs, hp, e]⟩
+    have := List.filter_eq_nil_iff.1 h _ hmem
+    simp at this
+
+/-- `MallocLen() = 0`: no node of the chain has pending bytes -/
+theorem Shape.pend_nil {nodes : List (Node α)} {r f w app} (h : Shape nodes r f w false app)
+    (h0 : (absL (nodes.drop r)).filter (! ·.2) = []) :
+    ∀ (i : Nat) (nd : Node α), nodes[i]? = some nd → nd.pend = [] := by
+  intro i nd hi
+  by_cases hir : i < r
+  · exact (h.node i nd hi).2.1 (by have := h.r_le_f; omega)
+  · apply pend_nil_of_no_pending h0
+    · intro x hx
+      obtain ⟨j, hj⟩ := List.getElem?_of_mem hx
+      rw [List.getElem?_drop] at hj
+      exact ((h.node _ x hj).2.2.2.1 rfl).1
+    · apply List.mem_of_getElem? (i := i - r)
+      rw [List.getElem?_drop, show r + (i - r) = i by omega]; exact hi
+
+theorem R.no_pending {b : LB α} {q : Q α} (hR : R b q) (h0 : q.mallocLen = 0) :
+    (absL (b.nodes.drop b.r)).filter (! ·.2) = [] := by
+  have : b.abs = q.items := hR.abs
+  rw [LB.abs_eq] at this
+  rw [this]
+  exact List.eq_nil_of_length_eq_zero h0
+
+theorem newNode_zero (cfg : Cfg) : (newNode cfg 0 : Node α) = { unmanaged := true } := by
+  simp [newNode]
+
+/-! ### resetTail -/
+
+theorem resetTail_refines [DecidableEq α] (cfg : Cfg) {b : LB α} {q : Q α} (hR : R b q) (maxSize : Nat)
+    (hC : Contract q (.resetTail maxSize) = true) :
+    ∃ b' r, b.step cfg (.resetTail maxSize) = some (b', r) ∧ R b' (specStep q (.resetTail maxSize)).1 ∧
+      Matches r (specStep q (.resetTail maxSize)).2 := by
+  simp only [Contract, Bool.and_eq_true, Bool.not_eq_true', decide_eq_true_eq] at hC
+  obtain ⟨⟨⟨hd, hro⟩, happ⟩, hm0⟩ := hC
+  have hsh := hR.shape hd
+  rw [hro, happ] at hsh
+  simp only [LB.step, LB.resetTail, specStep]
+  by_cases hp : maxSize ≤ cfg.pagesize
+  · simp only [hp, if_true, Option.map_some]
+    exact ⟨_, _, rfl, ⟨hR.abs, hR.len, hR.mlen, hR.shape, hR.cache, hR.flags⟩, rfl⟩
+  · obtain ⟨hfw, hwl⟩ := hsh.wr rfl
+    have hw : ¬ b.w ≥ b.nodes.length := by omega
+    simp only [hp, hw, if_false, Option.map_some]
+    refine ⟨_, _, rfl, ⟨?_, hR.len, hR.mlen, ?_, hR.cache, hR.flags⟩, rfl⟩
+    · show absL ((b.nodes.take (b.w + 1) ++ [newNode cfg 0]).drop b.r) = q.items
+      have hr := hsh.r_le_f
+      rw [List.drop_append_of_le_length (by simp; omega), absL_append, hsh.absL_take_w, newNode_zero]
+      have : b.abs = q.items := hR.abs
+      rw [LB.abs_eq] at this
+      simp [this, Node.abs, Node.readable]
+    · intro _
+      show Shape (b.nodes.take (b.w + 1) ++ [newNode cfg 0]) b.r (b.w + 1) (b.w + 1) q.readOnly q.appSinceFlush
+      rw [hro, happ]
+      have hpn := hsh.pend_nil (hR.no_pending hm0)
+      have hlen : (b.nodes.take (b.w + 1)).length = b.w + 1 := by simp; omega
+      refine ⟨by have := hsh.r_le_f; omega, by simp; omega, ?_, fun _ => ⟨Nat.le_refl _, by simp; omega⟩,
+        fun h => by cases h⟩
+      intro i nd hi
+      by_cases hiw : i < b.w + 1
+      · rw [List.getElem?_append_left (by omega), List.getElem?_take] at hi
+        simp only [hiw, if_true] at hi
+        have hn := hsh.node i nd hi
+        obtain ⟨a1, a2, _⟩ := hn.2.2.2.1 rfl
+        exact ⟨hn.1, fun _ => hpn i nd hi, fun _ hh => by omega, fun _ => ⟨a1, a2, fun hh => by omega⟩,
+          fun h => by cases h⟩
+      · rw [List.getElem?_append_right (by omega), hlen, newNode_zero] at hi
+        have : i - (b.w + 1) = 0 := by
+          rcases List.getElem?_eq_some_iff.1 hi with ⟨hh, _⟩; simpa using hh
+        rw [this] at hi
+        simp at hi; subst hi
+        simp
+
 end Netpoll.Buf
